@@ -204,7 +204,8 @@ func Convert(value any, typ reflect.Type) (any, error) { //nolint: gocyclo
 		if rv.Kind() != reflect.Map {
 			return nil, conversionError("", value, typ)
 		}
-		for _, key := range rv.MapKeys() {
+		// in a fixed order, so that a failure names the same entry every time
+		for _, key := range SortedMapKeys(rv) {
 			// the element is looked up under the key as the source map has it
 			ev := rv.MapIndex(key)
 			if key.Kind() == reflect.Interface && !key.IsNil() {
